@@ -16,7 +16,14 @@ func init() {
 func newAddr(c *Ctx, ctor string, net int, data []byte) Event {
 	return c.Call(Event{"op": "NewAddr", "ctor": ctor, "net": net, "data": ints(data)})
 }
+var nDecode int
+
 func decode(c *Ctx, s string, net int) Event {
+	// the CashAddr reader underneath is an entry point of its own (prefix-qualified strings only): every seventh
+	// string is also given to it directly
+	if nDecode++; nDecode%7 == 0 && strings.Contains(s, ":") {
+		decodeCash(c, s)
+	}
 	return c.Call(Event{"op": "Decode", "s": str(s), "net": net})
 }
 func decodeCash(c *Ctx, s string) Event { return c.Call(Event{"op": "DecodeCash", "s": str(s)}) }
